@@ -118,8 +118,13 @@ def rule_order(ctx: Ctx) -> None:
         p2 = g.path_avoiding(head, lambda n: n is pn, lambda n: n is un)
         ctx.check(p2 is None, "C15.2", "a delivered event becomes the source's predecessor", pe, upd[0].stmt, "store dominates the push",
                   "an event is delivered without being recorded as predecessor: an older event after it would be delivered too")
-    ctx.check(A.dotted(upd[0].target.slice) == sv and A.dotted(upd[0].node.value) == f"{ev}.when", "C15.2", "predecessor time is per source and "
-              "is the event's time", pe, upd[0].stmt, "prev[source] = event.when", "predecessor bookkeeping changed")
+    head0 = g.nodes_for(lp)[0]
+    p3 = g.path_avoiding(head0, lambda n: n is un, lambda n: n is t)
+    ctx.check(p3 is None, "C15.2", "the predecessor time is updated only after the event passed the order test", pe, upd[0].stmt,
+              "order test dominates the store", "the predecessor time is overwritten before the order test: a dropped stale event becomes the "
+              "reference, so the next event older than the last delivered one is delivered", detail={"path": C.fmt_path(p3) if p3 else []})
+    ctx.check(A.dotted(upd[0].target.slice) == sv, "C15.2", "predecessor time is kept per source", pe, upd[0].stmt, "prev[source] = ...",
+              "predecessor bookkeeping is not per source")
     if pushes:
         txt = ast.unparse(pushes[0])
         ctx.check(f"event={ev}" in txt and f"self._event_handlers.get({sv}, [])" in txt, "C15.2", "an event goes to the handlers of its own source",
